@@ -15,8 +15,8 @@ let obs_of_iout (o : iout) : obs list =
 
 (* what the glue remembers along one history besides the monitor: the classes of histories the
    partial theorems exclude (recorded findings) *)
-type hstate = { mon : mon; cid_changed : bool; pinger_outlived : bool }
-let hstate_init = { mon = mon_init; cid_changed = false; pinger_outlived = false }
+type hstate = { mon : mon; mon6 : mon6; cid_changed : bool; pinger_outlived : bool }
+let hstate_init = { mon = mon_init; mon6 = mon6_init; cid_changed = false; pinger_outlived = false }
 
 (* (property, clause) failures of one step; s' is the model's state after the step *)
 let step (cfg : gw_cfg) (s : gw_state) (s' : gw_state) (ev : gw_event) (iouts : iout list) (h : hstate)
@@ -34,6 +34,7 @@ let step (cfg : gw_cfg) (s : gw_state) (s' : gw_state) (ev : gw_event) (iouts : 
         | _ -> []) iouts in
   let c24m = if c24 = [] then tag "C24" (chk_C24 os) else [] in
   let (m', mf) = mon_step cfg s s' ev os h.mon in
+  let (m6', f6) = mon6_step cfg s ev os h.mon6 in
   (* C04: the peer re-CONNECTed under another client ID after topic IDs were in use (cid_stable fails) *)
   let cid_changed = h.cid_changed ||
                     (s'.gw_client_id <> s.gw_client_id && (s.gw_handed_out <> [] || nmap_to_list s.gw_registered <> [])) in
@@ -57,5 +58,6 @@ let step (cfg : gw_cfg) (s : gw_state) (s' : gw_state) (ev : gw_event) (iouts : 
       WILL*REQ: the per-step clause of C09 cannot attribute it (C11 checks the flush, see DESIGN.md) *)
    @ (if c09_excluded cfg s ev then [] else tag "C09" (chk_C09 cfg s ev os))
    @ tag "C11" (chk_C11 cfg s ev os)
-   @ tag "C02" (chk_C02 cfg s s' ev os) @ mfs,
-   { mon = m'; cid_changed; pinger_outlived })
+   @ tag "C02" (chk_C02 cfg s s' ev os) @ mfs
+   @ List.map (fun c -> let c = int_of_n c in ("C06", if c < 10 then Printf.sprintf "clause%d class=same-id-both-directions" c else Printf.sprintf "clause%d" (c - 10))) f6,
+   { mon = m'; mon6 = m6'; cid_changed; pinger_outlived })
